@@ -213,8 +213,12 @@ check('C10',
       'module of <=3 (thorough <=4) doctests over 12 by-construction outcome kinds (incl. failures before any part runs) x commands {all, list, '
       '<name:num>, <name>} x default options {none, +SKIP, -ELLIPSIS}. Each finished case is rendered and run by runner.doctest_module in process '
       '(verbosity 0..3, styles rotating): tallies, failed list, executed statements (each gathered doctest once, in order), the status returned by '
-      'xdoctest.__main__.main, the listing; a rotating sample through `python -m xdoctest` subprocesses.',
-      SESSION_NOTE, 'TLA+ runner spec (TLC exhaustive), replay of TLC-generated modules through the native runner and CLI',
+      'xdoctest.__main__.main, the listing; a rotating sample through `python -m xdoctest` subprocesses. Code -> spec: sessions recorded from '
+      'the real runner by the probe (collected / selected / run outcomes / tallies / summary / exit status) - a sample of the modelled modules, '
+      'the library doctests and the repository tests that drive the runner - are validated by TLC against specs/SessionTrace.tla; tampered '
+      'sessions must be rejected.',
+      SESSION_NOTE, 'TLA+ runner spec (TLC exhaustive), replay of TLC-generated modules through the native runner and CLI, trace validation of '
+      'recorded runner sessions against SessionTrace.tla',
       'DESIGN.md section 5 (C10)', 'session')
 
 check('C11',
@@ -278,6 +282,8 @@ def main():
             {'name': 'modpath', 'path': 'specs/ModPath.tla', 'serves_properties': ['C17', 'C07', 'C12'], 'kind_free_text': 'TLA+ spec of module name/path resolution, split and package walk over directory trees; MC_ModPath.tla; harness/c17.py materialises trees'},
             {'name': 'pathctx', 'path': 'specs/PathCtx.tla', 'serves_properties': ['C12', 'C17'], 'kind_free_text': 'TLA+ spec of PythonPathContext around an import whose module changes sys.path; every behaviour replayed into the real context manager (harness/c12.py)'},
             {'name': 'session', 'path': 'specs/Session.tla', 'serves_properties': ['C10', 'C11', 'C15'], 'kind_free_text': 'TLA+ spec of a process running collected doctests through the native and pytest front ends or in arbitrary histories; harness/sessionlib.py renders by-construction doctests'},
+            {'name': 'sessiontrace', 'path': 'specs/SessionTrace.tla', 'serves_properties': ['C10'], 'kind_free_text': 'TLA+ trace specification of the native runner session; validates session events recorded by harness/probe.py from the real runner (harness/tracelib.py)'},
+            {'name': 'docruntrace', 'path': 'specs/DocRunTrace.tla', 'serves_properties': ['C02', 'C03', 'C04', 'C09', 'C12'], 'kind_free_text': 'TLA+ trace specification of DocTest.run; validates run-loop events recorded by harness/probe.py (replayed cases, library doctests, repository tests)'},
             {'name': 'match', 'path': 'specs/Match.tla', 'serves_properties': ['C05', 'C06'], 'kind_free_text': 'TLA+ spec of output matching (normalisation pipeline, ellipsis) + MatchTrace.tla trace spec; TLC'},
         ],
         'checks': [CHECKS[k] for k in sorted(CHECKS)],
